@@ -1876,7 +1876,271 @@ def _absorb_state_site(tree, G, K, ki, kmeths, fields, use):
   return True
 
 
+# ---------------------------------------------------------------- R8
+def demote_new_namedtuples(trees, stats):
+  """A module-level `_T = namedtuple('_T', fields)` that the reference tree does not have (a plain tuple given field names): constructor calls
+  become tuple displays again (fields in declaration order), and `<v>.<field>` becomes `<v>[index]` for a local v on which only fields of _T are read."""
+  b = load_baseline()
+  base = b.get('constants')
+  if base is None:
+    return
+  found = {}   # name -> (rel, fields, stmt)
+  for rel, tree in trees.items():
+    known = set(base.get(rel, []))
+    for st in tree.body:
+      if (isinstance(st, ast.Assign) and len(st.targets) == 1 and isinstance(st.targets[0], ast.Name) and isinstance(st.value, ast.Call)
+          and ast.unparse(st.value.func).split('.')[-1] == 'namedtuple' and len(st.value.args) == 2 and not st.value.keywords and st.targets[0].id not in known):
+        f = st.value.args[1]
+        if isinstance(f, ast.Constant) and isinstance(f.value, str):
+          fields = f.value.replace(',', ' ').split()
+        elif isinstance(f, (ast.List, ast.Tuple)) and all(isinstance(e, ast.Constant) and isinstance(e.value, str) for e in f.elts):
+          fields = [e.value for e in f.elts]
+        else:
+          continue
+        found[st.targets[0].id] = (rel, fields, st)
+  if not found:
+    return
+  n = 0
+  for rel, tree in trees.items():
+    for T, (trel, fields, tst) in found.items():
+      visible = trel == rel or any(isinstance(i, ast.ImportFrom) and any((a.asname or a.name) == T for a in i.names) for i in tree.body)
+      if not visible:
+        continue
+      # constructor calls
+      bad_use = [False]
+
+      class C(ast.NodeTransformer):
+        def visit_Call(self, node):
+          self.generic_visit(node)
+          if isinstance(node.func, ast.Name) and node.func.id == T:
+            vals = {}
+            if any(isinstance(a, ast.Starred) for a in node.args) or len(node.args) > len(fields):
+              bad_use[0] = True
+              return node
+            for fn_, a in zip(fields, node.args):
+              vals[fn_] = a
+            for k in node.keywords:
+              if k.arg is None or k.arg not in fields or k.arg in vals:
+                bad_use[0] = True
+                return node
+              vals[k.arg] = k.value
+            if set(vals) != set(fields):
+              bad_use[0] = True
+              return node
+            # evaluation order of the arguments must be the field order (or the reordered ones are pure)
+            given = [a for a in node.args] + [k.value for k in node.keywords]
+            ordered = [vals[fn_] for fn_ in fields]
+            if [id(x) for x in given] != [id(x) for x in ordered] and not all(isinstance(x, (ast.Name, ast.Constant, ast.Attribute)) for x in given):
+              bad_use[0] = True
+              return node
+            return ast.copy_location(ast.Tuple(elts=ordered, ctx=ast.Load()), node)
+          return node
+      C().visit(tree)
+      # field reads on locals
+      for fn in [x for x in ast.walk(tree) if isinstance(x, FN)]:
+        params = set(params_of(fn))
+        by_name = {}
+        for a in ast.walk(fn):
+          if isinstance(a, ast.Attribute) and isinstance(a.value, ast.Name) and isinstance(a.ctx, ast.Load):
+            by_name.setdefault(a.value.id, []).append(a)
+        for v, accs in by_name.items():
+          if v in ('self', 'cls') or v in params:
+            continue
+          attrs = set(a.attr for a in accs)
+          if not attrs or not attrs <= set(fields):
+            continue
+          owners = [t for t, (_, fl, _) in found.items() if attrs <= set(fl)]
+          if owners != [T] and T not in owners:
+            continue
+          # v must be a local of fn bound in fn
+          if not any(isinstance(x, ast.Name) and x.id == v and isinstance(x.ctx, ast.Store) for x in ast.walk(fn)):
+            continue
+          for a in accs:
+            idx = fields.index(a.attr)
+            _replace_node(fn, a, ast.copy_location(ast.Subscript(value=ast.Name(id=v, ctx=ast.Load()), slice=ast.Constant(value=idx), ctx=ast.Load()), a))
+            n += 1
+      if not bad_use[0] and trel == rel and not any(isinstance(x, ast.Name) and x.id == T and isinstance(x.ctx, ast.Load) for x in ast.walk(tree)):
+        tree.body.remove(tst)
+      ast.fix_missing_locations(tree)
+  stats['namedtuples_demoted'] = len(found)
+
+
+# ---------------------------------------------------------------- R9
+def import_cross_module_helpers(trees, stats):
+  """A new private module-level function of module A that module B imports by name (`from ..a import _helper`) is copied into B (with the imports it
+  needs), so that the per-module helper inlining sees it; a new private *static* method that other classes of its module call as `Cls._h(...)` becomes a
+  module-level function of that module first."""
+  b = load_baseline()
+  inv = b.get('inventory', {})
+  modname = {}
+  for rel in trees:
+    nm = rel[:-3].replace('/', '.')
+    if nm.endswith('.__init__'):
+      nm = nm[:-9]
+    modname[nm] = rel
+  # static helpers used across classes -> module level
+  for rel, tree in trees.items():
+    known = set(inv.get(rel, []))
+    if not known:
+      continue
+    for C in [x for x in tree.body if isinstance(x, ast.ClassDef)]:
+      for m in list(C.body):
+        if not (isinstance(m, FN) and _is_static(m) and _plain(m) and not m.name.startswith('__') and (C.name + '.' + m.name) not in known):
+          continue
+        outside = [n for n in ast.walk(tree) if isinstance(n, ast.Attribute) and n.attr == m.name and isinstance(n.value, ast.Name) and n.value.id == C.name
+                   and not any(n is x for x in ast.walk(C))]
+        others = [n for n in ast.walk(tree) if isinstance(n, ast.Attribute) and n.attr == m.name and not (isinstance(n.value, ast.Name) and n.value.id in ('self', 'cls', C.name))]
+        if not outside or others:
+          continue
+        new_name = '_%s_%s' % (C.name.strip('_'), m.name.strip('_'))
+        if any(isinstance(x, ast.Name) and x.id == new_name for x in ast.walk(tree)):
+          continue
+        for p_ in ast.walk(tree):
+          for fld, v in ast.iter_fields(p_):
+            vs = v if isinstance(v, list) else [v]
+            for i, x in enumerate(vs):
+              if isinstance(x, ast.Attribute) and x.attr == m.name and isinstance(x.value, ast.Name) and x.value.id in ('self', 'cls', C.name):
+                new = ast.copy_location(ast.Name(id=new_name, ctx=ast.Load()), x)
+                if isinstance(v, list):
+                  v[i] = new
+                else:
+                  setattr(p_, fld, new)
+        C.body.remove(m)
+        m.decorator_list = []
+        m.name = new_name
+        tree.body.insert(tree.body.index(C), m)
+        stats['static_helpers_lifted'] = stats.get('static_helpers_lifted', 0) + 1
+      if not C.body:
+        C.body.append(ast.Pass())
+    ast.fix_missing_locations(tree)
+  # imported helpers
+  for rel, tree in trees.items():
+    for imp in [x for x in list(tree.body) if isinstance(x, ast.ImportFrom)]:
+      src = imp.module or ''
+      if imp.level:
+        basepkg = rel[:-3].replace('/', '.').split('.')
+        if not rel.endswith('__init__.py'):
+          basepkg = basepkg[:-1]
+        if imp.level > 1:
+          basepkg = basepkg[:-(imp.level - 1)]
+        src = '.'.join(basepkg + ([imp.module] if imp.module else []))
+      arel = modname.get(src)
+      if arel is None or arel == rel:
+        continue
+      atree = trees[arel]
+      aknown = set(inv.get(arel, []))
+      for al in list(imp.names):
+        if al.asname or al.name.startswith('__') or al.name in aknown:
+          continue
+        hd = [x for x in atree.body if isinstance(x, FN) and x.name == al.name and _plain(x) and not x.decorator_list]
+        if len(hd) != 1:
+          continue
+        h = hd[0]
+        if any(isinstance(x, FN) and x.name == al.name for x in tree.body) or any(isinstance(n, (ast.Yield, ast.YieldFrom)) for n in own_nodes(h)):
+          continue
+        # free names of the helper must be bound in B, or be importable the way A imports them
+        params = set(params_of(h))
+        _, locs = local_defs_fp(h)
+        bound_local = params | set(n for n, _ in locs)
+        free = set(n.id for n in ast.walk(h) if isinstance(n, ast.Name) and isinstance(n.ctx, ast.Load)) - bound_local - set(dir(__builtins__) if not isinstance(__builtins__, dict) else __builtins__)
+        bnames = set()
+        for st in tree.body:
+          if isinstance(st, (ast.Import, ast.ImportFrom)):
+            for a in st.names:
+              bnames.add((a.asname or a.name).split('.')[0])
+          elif isinstance(st, (FN + (ast.ClassDef,))):
+            bnames.add(st.name)
+          elif isinstance(st, ast.Assign):
+            for t in st.targets:
+              for x in ast.walk(t):
+                if isinstance(x, ast.Name):
+                  bnames.add(x.id)
+        need = free - bnames
+        extra = []
+        ok = True
+        for nm in sorted(need):
+          got = None
+          for st in atree.body:
+            if isinstance(st, ast.ImportFrom) and st.level == 0:
+              for a in st.names:
+                if (a.asname or a.name) == nm:
+                  got = ast.ImportFrom(module=st.module, names=[ast.alias(name=a.name, asname=a.asname)], level=0)
+            elif isinstance(st, ast.ImportFrom) and st.level:
+              for a in st.names:
+                if (a.asname or a.name) == nm:
+                  # re-anchor the relative import at the package root
+                  ab = arel[:-3].replace('/', '.').split('.')
+                  if not arel.endswith('__init__.py'):
+                    ab = ab[:-1]
+                  if st.level > 1:
+                    ab = ab[:-(st.level - 1)]
+                  got = ast.ImportFrom(module='.'.join(ab + ([st.module] if st.module else [])), names=[ast.alias(name=a.name, asname=a.asname)], level=0)
+            elif isinstance(st, ast.Import):
+              for a in st.names:
+                if (a.asname or a.name).split('.')[0] == nm:
+                  got = ast.Import(names=[ast.alias(name=a.name, asname=a.asname)])
+          if got is None:
+            ok = False
+            break
+          extra.append(got)
+        if not ok:
+          continue
+        k = tree.body.index(imp)
+        cp = copy.deepcopy(h)
+        tree.body[k + 1:k + 1] = extra + [cp]
+        imp.names.remove(al)
+        stats['helpers_imported'] = stats.get('helpers_imported', 0) + 1
+      if not imp.names:
+        tree.body.remove(imp)
+    ast.fix_missing_locations(tree)
+
+
 # ---------------------------------------------------------------- drivers
+def _note_signatures(trees):
+  """Positional parameter lists of every function, method (without self/cls), class constructor and namedtuple of the package, by bare name."""
+  from . import normalize
+  sigs = {}
+
+  def add(name, params):
+    sigs.setdefault(name, [])
+    if params not in sigs[name]:
+      sigs[name].append(params)
+  for tree in trees.values():
+    for n in ast.walk(tree):
+      if isinstance(n, ast.ClassDef):
+        for m in n.body:
+          if isinstance(m, FN):
+            ps = [a.arg for a in m.args.posonlyargs + m.args.args]
+            static = any(ast.unparse(d) == 'staticmethod' for d in m.decorator_list)
+            if not static:
+              ps = ps[1:]
+            if m.args.vararg:
+              ps = ps + [None]
+            add(m.name, ps)
+            if m.name == '__init__':
+              add(n.name, ps)
+      elif isinstance(n, ast.Assign) and isinstance(n.value, ast.Call) and ast.unparse(n.value.func).split('.')[-1] == 'namedtuple' and len(n.value.args) == 2 \
+          and len(n.targets) == 1 and isinstance(n.targets[0], ast.Name):
+        f = n.value.args[1]
+        if isinstance(f, ast.Constant) and isinstance(f.value, str):
+          add(n.targets[0].id, f.value.replace(',', ' ').split())
+        elif isinstance(f, (ast.List, ast.Tuple)) and all(isinstance(e, ast.Constant) for e in f.elts):
+          add(n.targets[0].id, [e.value for e in f.elts])
+    for n in tree.body:
+      if isinstance(n, FN):
+        ps = [a.arg for a in n.args.posonlyargs + n.args.args]
+        if n.args.vararg:
+          ps = ps + [None]
+        add(n.name, ps)
+    for c in [x for x in ast.walk(tree) if isinstance(x, FN)]:
+      for n in c.body:
+        if isinstance(n, FN):
+          ps = [a.arg for a in n.args.posonlyargs + n.args.args]
+          add(n.name, ps + ([None] if n.args.vararg else []))
+  normalize.PACKAGE_SIGNATURES.clear()
+  normalize.PACKAGE_SIGNATURES.update(sigs)
+
+
 def _note_stable_attrs(trees):
   from . import normalize
   bound_init, bound_other = set(), set()
@@ -1902,9 +2166,21 @@ def _note_stable_attrs(trees):
 def restore_package(trees, stats):
   """Before the per-module normalisation (on the raw trees)."""
   try:
+    _note_signatures(trees)
+  except Exception as e:
+    stats['signature_error'] = repr(e)
+  try:
     _note_stable_attrs(trees)
   except Exception as e:
     stats['stable_error'] = repr(e)
+  try:
+    import_cross_module_helpers(trees, stats)
+  except Exception as e:
+    stats['cross_module_error'] = repr(e)
+  try:
+    demote_new_namedtuples(trees, stats)
+  except Exception as e:
+    stats['namedtuple_error'] = repr(e)
   try:
     for _ in range(2):       # a constant defined from another new constant
       inline_new_constants(trees, stats)
